@@ -139,6 +139,7 @@ std::string apply_faults(const std::string& base, const std::vector<ByteFault>& 
     else if (f.k == "dupblock") { if (a < b.size() && len) { b.insert(a, b.substr(a, std::min(len, b.size() - a))); done = true; } }
     else if (f.k == "dropblock") { if (a < b.size() && len) { b.erase(a, std::min(len, b.size() - a)); done = true; } }
     else if (f.k == "append") { b.append(f.s); done = !f.s.empty(); }
+    else if (f.k == "insert") { if (a <= b.size() && len) { b.insert(a, std::string(std::min<size_t>(len, 4096), static_cast<char>(f.v))); done = true; } }
     else {
       TzLayout L = layout_of(b);
       if (f.k == "hdr") {
@@ -228,6 +229,13 @@ ByteFault random_fault(Rng* r, const std::string& kind, const std::string& bytes
   else if (kind == "zero" || kind == "ff") { f.a = (anywhere() / 16) * 16; f.b = r->pick(std::vector<int>{4, 16, 64, 512, 4096}); }
   else if (kind == "splice") { f.s = "shipped:" + r->pick(shipped_names()); f.a = r->chance(0.5) ? (anywhere() / 512) * 512 : anywhere(); }
   else if (kind == "dupblock" || kind == "dropblock") { f.a = anywhere(); f.b = r->pick(std::vector<int>{1, 4, 6, 8, 44, 64, 512}); }
+  else if (kind == "insert") {
+    // extra bytes at a table boundary (as a count edit would need to stay consistent), or anywhere
+    if (L.ok && r->chance(0.7)) { size_t marks[] = {L.idx, L.types, L.abbrs, L.tail, L.tail, L.footer}; f.a = static_cast<int64_t>(marks[r->below(6)]); }
+    else f.a = anywhere();
+    f.b = r->chance(0.5) ? static_cast<int64_t>(std::max<size_t>(1, L.typecnt)) : r->pick(std::vector<int64_t>{1, 2, 6, 8, 12, 64});
+    f.v = r->pick(std::vector<int64_t>{0, 0, 1, 0xff, 'A', '\n'});
+  }
   else if (kind == "hdr") {
     f.a = static_cast<int64_t>(r->below(2)); f.b = static_cast<int64_t>(r->below(6));
     int64_t orig = 0;
@@ -302,7 +310,7 @@ C12Case gen_c12(const std::string& part, const std::string& tier, uint64_t seed,
   std::string bytes = base_bytes(c.base);
   TzLayout L = layout_of(bytes);
   static const std::vector<std::string> kinds = {"trunc", "flip", "flip", "flip", "set", "zero", "ff", "splice", "dupblock", "dropblock", "hdr",
-                                                 "typeidx", "typeidx", "abbridx", "abbridx", "isdst", "isdst", "utoff", "utoff", "time", "time", "time",
+                                                 "typeidx", "typeidx", "abbridx", "abbridx", "isdst", "isdst", "utoff", "utoff", "time", "time", "time", "insert",
                                                  "version", "footer", "footer", "footer", "footer"};
   // Swarm: a random subset of fault kinds is enabled in this run.
   std::vector<std::string> enabled;
@@ -313,6 +321,20 @@ C12Case gen_c12(const std::string& part, const std::string& tier, uint64_t seed,
   for (int i = 0; i < nf; ++i) {
     ByteFault f = random_fault(&fl, fl.pick(enabled), bytes, L);
     c.faults.push_back(f);
+  }
+  if (L.ok && L.version != '\0' && fl.chance(0.04)) {
+    // A *consistent* edit of the indicator arrays: set ttisutcnt and/or ttisstdcnt to typecnt (or 0) and add or remove the bytes.
+    c.faults.clear();
+    int64_t tc = static_cast<int64_t>(L.typecnt);
+    int shape = static_cast<int>(fl.below(3));   // 0: ut-only, 1: std-only, 2: both
+    int64_t have_ut = get32(bytes, L.counts2[0]), have_std = get32(bytes, L.counts2[1]);
+    ByteFault drop; drop.k = "dropblock"; drop.a = static_cast<int64_t>(L.tail); drop.b = have_ut + have_std;
+    if (drop.b > 0) c.faults.push_back(drop);
+    int64_t want_ut = shape != 1 ? tc : 0, want_std = shape != 0 ? tc : 0;
+    ByteFault ins; ins.k = "insert"; ins.a = static_cast<int64_t>(L.tail); ins.b = want_ut + want_std; ins.v = fl.pick(std::vector<int64_t>{0, 0, 1});
+    if (ins.b > 0) c.faults.push_back(ins);
+    ByteFault h1; h1.k = "hdr"; h1.a = 1; h1.b = 0; h1.v = want_ut; c.faults.push_back(h1);
+    ByteFault h2; h2.k = "hdr"; h2.a = 1; h2.b = 1; h2.v = want_std; c.faults.push_back(h2);
   }
   if (fl.chance(0.08)) c.eio_at = static_cast<int64_t>(fl.below(bytes.size() + 1));
   if (fl.chance(0.08)) c.short_at = static_cast<int64_t>(fl.below(bytes.size() + 1));
@@ -423,7 +445,14 @@ Outcome exec_c12(const C12Case& c, bool keep_log, Stats* stats) {
   {
     CatEntry& e = cat[nd];
     e.kind = CatEntry::BYTES;
-    switch (c.sched_seed % 5) {
+    switch (c.sched_seed % 7) {
+      case 5: case 6: {   // healthy data, but a footer that is rejected only near its end (the rule parser has already run)
+        std::vector<ByteFault> ff(1);
+        ff[0].k = "footer";
+        ff[0].s = (c.sched_seed % 7 == 5) ? "EST5EDT,M4.1.0,M10.5.0," : "<+0330>-3:30<+0430>,J79/24,J263/2x";
+        e.bytes = apply_faults(shipped_bytes(c.sched_seed % 14 < 7 ? "America/New_York" : "Asia/Tehran"), ff, nullptr);
+        break;
+      }
       case 0: e.bytes = shipped_bytes("Australia/Lord_Howe"); break;
       case 1: e.bytes = base_bytes("synth:77"); break;
       case 2: e.bytes = shipped_bytes("America/New_York"); e.bytes.resize(e.bytes.size() - 40); break;            // rejected inside the footer
